@@ -4,7 +4,9 @@
 cd /verif
 ids="$@"; [ -z "$ids" ] && ids=$(ls seeded)
 for sid in $ids; do
-  prop=$(python3 -c "import json;print(json.load(open('/verif/seeded/$sid/meta.json'))['property'])" 2>/dev/null)
+  # the check(s) to run: the seed's own property, unless meta.json names others in "regress_with" (a change
+  # that another property's check reports and the own-property check, by its statement, cannot)
+  prop=$(python3 -c "import json;m=json.load(open('/verif/seeded/$sid/meta.json'));print(m.get('regress_with') or m['property'])" 2>/dev/null)
   patch=/verif/seeded/$sid/patch.diff
   [ -f /verif/seeded/$sid/patch.rebased.diff ] && patch=/verif/seeded/$sid/patch.rebased.diff
   out=$(tools/try_seed.sh $patch $prop 2>&1 | grep -E "^--- |patch does not apply")
